@@ -93,7 +93,7 @@ theorem C14_editing_the_copy_never_changes_the_original {h : Heap} (hs : Struct 
     (sp.region_new a hac m hm) (sp.region_new v hvc m hm).2.2
 
 /-- **mutating either side afterwards never changes the other — for whole histories**: after `Clone()`, ANY finite sequence of edits
-(`Edit`: the scalar setters, DeleteKey, DeleteIndex, Delete, AppendArray of one node) addressed to nodes that existed before the call
+(`Edit`: the scalar setters, DeleteKey, DeleteIndex, Delete, AppendArray of one node, AppendObject of one node under any key) addressed to nodes that existed before the call
 leaves the whole record of every node of the copy as it is … -/
 theorem C14_any_history_on_the_original {h : Heap} (hs : Struct h) (ha : Acyc h) (n : Nat) (hn : n < h.size) (es : List Edit)
     (hnames : ∀ e ∈ es, ∀ x ∈ e.names, x < h.size) (m : Nat) (hm : h.size ≤ m) :
